@@ -158,6 +158,13 @@ func c07BuildSpec(sp c07Spec) c07Case {
 	h := eng.History{Backend: backend, Init: c07Bystanders()}
 	var newRes []eng.Res
 	var placed []eng.Res
+	if scenario == "upgrade-add-nstwin" { // every added resource lives in the second namespace
+		sp.NS = make([]string, len(idx))
+		for i := range sp.NS {
+			sp.NS[i] = "other"
+		}
+		c.NS = sp.NS
+	}
 	for i, ix := range idx {
 		p := c07Pool[ix%len(c07Pool)]
 		r := c07ChartRes(p.Kind, p.Name, variant+i)
@@ -205,6 +212,19 @@ func c07BuildSpec(sp c07Spec) c07Case {
 		for _, ix := range idx {
 			p := c07Pool[ix%len(c07Pool)]
 			twins = append(twins, c07Twin(p.Kind, p.Name))
+		}
+		h.Init = append(h.Init, placed...)
+		h.Steps = []eng.Step{
+			{Op: &eng.Op{Kind: "install", ChartID: 1, ValsID: 1, Manifest: append([]eng.Res{base}, twins...)}},
+			{Op: &eng.Op{Kind: "upgrade", Flags: fl, ChartID: 2, ValsID: 1, Manifest: append(append([]eng.Res{base2}, twins...), newRes...), Hooks: hooks}}}
+	case "upgrade-add-nstwin":
+		// the release already owns, for every added resource, a resource of the SAME kind and name in
+		// the release namespace; the upgrade adds its namesake in namespace "other" (the to-be-created
+		// diff and the look-up must compare and use the namespace)
+		var twins []eng.Res
+		for _, ix := range idx {
+			p := c07Pool[ix%len(c07Pool)]
+			twins = append(twins, c07ChartRes(p.Kind, p.Name, variant+7))
 		}
 		h.Init = append(h.Init, placed...)
 		h.Steps = []eng.Step{
@@ -262,7 +282,7 @@ func c07GetFault(c c07Case, idx []int, i int) c07Case {
 	return c
 }
 
-var c07Scenarios = []string{"install", "upgrade-add", "replace", "rollback-recreate", "upgrade-add-twin", "upgrade-retry"}
+var c07Scenarios = []string{"install", "upgrade-add", "replace", "rollback-recreate", "upgrade-add-twin", "upgrade-retry", "upgrade-add-nstwin"}
 
 func c07Gen(r *rand.Rand) c07Case {
 	k := r.Intn(10)
@@ -275,6 +295,9 @@ func c07Gen(r *rand.Rand) c07Case {
 		sc = "upgrade-retry"
 	case k < 6:
 		sc = "upgrade-add-twin"
+		if r.Intn(2) == 0 {
+			sc = "upgrade-add-nstwin"
+		}
 	case k < 8:
 		sc = "replace"
 	default:
